@@ -54,6 +54,17 @@ def make_case(rng, tier, damage, max_damage=4):
             if not any(r == clash or r.startswith(clash + "/") or clash.startswith(r + "/")
                        for r, _ in files[1:]):
                 files[0] = (clash, blob)
+    if not single and len(files) >= 2 and rng.random() < 0.2:
+        # byte-identical copies (equal roots / equal pieces): the later one is what gets damaged
+        order = sorted(range(len(files)), key=lambda i: files[i][0].split("/"))
+        src = files[order[0]][1]
+        if len(src):
+            files[order[-1]] = (files[order[-1]][0], src)
+            twin_rel = files[order[-1]][0]
+        else:
+            twin_rel = None
+    else:
+        twin_rel = None
     source = rng.choice(SOURCES)
     if SCALED[0] and source == "own":
         source = "ref"
@@ -74,6 +85,9 @@ def make_case(rng, tier, damage, max_damage=4):
         to = rng.choice([whole - pl, whole] if whole < len(files[0][1]) else [whole - pl])
         if any(files[0][1].bytes()[to:]):
             case["damage"] = [["trunc", files[0][0], to]]
+    elif damage and twin_rel is not None and rng.random() < 0.7:
+        n = len(dict(files)[twin_rel])
+        case["damage"] = [["flip", twin_rel, rng.choice([0, n - 1, n // 2])]]
     elif damage:
         case["damage"] = make_damage(rng, files, pl, version, single,
                                      rng.randrange(1, max_damage + 1), case.get("v1_order"),
